@@ -930,3 +930,112 @@ def t_loop_exit_siblings(facts, res, tier):
                 res.fail(key, facts.where(gi, arms[pt]), "the `if (c) %s;` shortcut in generate_if does not reject %s, which %s does: `if (c) %s;` %s emits a branch to a label that does not exist (the branch checker then panics)" % (
                     pt.split("::")[1].lower(), "a missing enclosing loop" if what == "none" else "an empty continue label", sib, pt.split("::")[1].lower(),
                     "outside any loop" if what == "none" else "inside a switch that is not inside a loop"))
+
+
+# ----------------------------------------------------------------------------- C01 / C15 (round 20: a claim that N/Z describe A needs an instruction that made it so)
+
+
+FLAGS_A_EXCEPTIONS = {
+    ("generate_assign", "nothing-emitted"): "the A-destination arm of generate_assign with a right-hand side that is already in A (a call result): the same family as "
+        "FLAGS_EXCEPTIONS[generate_assign] - an A destination is only passed by generate_return (RTS follows), generate_ternary (a label follows, which resets the "
+        "flags) and the high-byte load of generate_condition_16bits (whose operand is never the accumulator); no input was found that reaches a consumer",
+    ("generate_condition_ex", "other"): "`CMP #0` with the accumulator on the left: N/Z of A - 0 are those of A.  Premise checked on every run: the assignment "
+        "follows `asm(CMP, right, ..)` in the else-branch of `*v != 0` under `matches!(left, ExprType::A(_))`",
+}
+
+
+def _flags_a_premise_cmp0(facts):
+    """the only `flags = A` of generate_condition_ex that follows a CMP is under `*v != 0` (else) and `matches!(left, ExprType::A(_))`"""
+    fn = facts.fn("generate_condition_ex", GEN_QUAL)
+    from astlib import walk as _walk, expr_text as _et
+    n_ok = n_all = 0
+    def stmts_of(b):
+        return b.get("stmts", []) if isinstance(b, dict) and b.get("k") == "block" else []
+    for n in _walk(fn["body"]):
+        if n.get("k") != "if" or "else" not in n:
+            continue
+        if not re.search(r"\bv!=0\b", _et(n["cond"])):
+            continue
+        for inner in _walk(n["else"]):
+            if inner.get("k") != "if":
+                continue
+            ss = stmts_of(inner["then"])
+            txt = [_et(x) for x in ss]
+            if any(t.endswith("flags=FlagsState::A") or "flags=FlagsState::A" in t for t in txt):
+                n_all += 1
+                if "matches!(left,ExprType::A(_))" in _et(inner["cond"]) and len(txt) >= 2 and txt[0].startswith("self.asm(CMP,right"):
+                    n_ok += 1
+    # every CMP-then-claim in the function must be one of those
+    return n_all >= 1 and n_ok == n_all
+
+
+@rule("T-FLAGS-A-CLAIM", floor=3,
+      text="wherever a generator function assigns `flags = FlagsState::A`, N/Z really describe the accumulator: on every path of that function the "
+           "last N/Z-changing instruction it emitted itself before the assignment (since its start, or since the last call into another generator "
+           "function) wrote A - a path that reaches the assignment having emitted none (an operation elided as a no-op: `| 0`, `+ 0`, `& 0xff`) "
+           "hands the next condition whatever the producer of A left in the flags (`JSR f / BEQ`)")
+def t_flags_a_claim(facts, res, tier):
+    seen = {}
+    for fn in gen_fns(facts):
+        if fn["name"] in ("new", "asm"):
+            continue
+        for kind, value, st in fn_paths(facts, fn):
+            if is_error_exit(value):
+                continue
+            evs = st.events
+            for i, e in enumerate(evs):
+                if e["kind"] != "set" or e["field"] != "flags":
+                    continue
+                v = e["value"]
+                if not (isinstance(v, EnumV) and v.enum == "FlagsState" and v.variant == "A"):
+                    continue
+                start, after_call = 0, None
+                for j in range(i - 1, -1, -1):
+                    if evs[j]["kind"] == "call":
+                        start, after_call = j + 1, evs[j].get("fn") or evs[j].get("name")
+                        break
+                desc = None   # 'A' | 'other' | None (nothing emitted)
+                unknown = False
+                for w in evs[start:i]:
+                    if w["kind"] not in ("asm", "sasm", "sasm_protected"):
+                        continue
+                    m = ev_mnemonics(facts, st, w)
+                    if not m:
+                        unknown = True
+                        continue
+                    nz = {MN[x]["nz"] for x in m}
+                    wa = {"A" in MN[x]["writes_reg"] for x in m}
+                    if nz == {False}:
+                        continue
+                    if nz == {True} and wa == {True}:
+                        desc, unknown = "A", False
+                    elif nz == {True} and wa == {False}:
+                        desc, unknown = "other", False
+                    else:
+                        unknown = True
+                where = facts.where(fn, e["node"])
+                verdict = "A" if desc == "A" and not unknown else ("unknown" if unknown else (desc or ("after-call" if after_call else "nothing-emitted")))
+                key = "T-FLAGS-A-CLAIM:%s:%s" % (fn["name"], verdict)
+                ent = seen.setdefault((fn["name"], str(where)), {"where": where, "verdicts": set(), "fn": fn, "node": e["node"]})
+                ent["verdicts"].add(verdict)
+    # stable keys: per function, numbered in source order of the assignment
+    per_fn = {}
+    for (fname, w), ent in seen.items():
+        per_fn.setdefault(fname, []).append((w, ent))
+    for fname, lst in sorted(per_fn.items()):
+        for idx, (w, ent) in enumerate(sorted(lst, key=lambda x: (x[0].rsplit(":", 1)[0], int(x[0].rsplit(":", 1)[1]))), 1):
+            vs = ent["verdicts"]
+            key = "T-FLAGS-A-CLAIM:%s:%d" % (fname, idx)
+            res.inst(key, True, {"function": fname, "where": ent["where"], "paths": sorted(vs)})
+            bad = sorted(vs - {"A", "after-call"})
+            for b in bad:
+                k2 = "%s:%s" % (key, b)
+                if (fname, b) == ("generate_condition_ex", "other") and not _flags_a_premise_cmp0(facts):
+                    res.fail(k2 + ":premise", ent["where"], "generate_condition_ex claims the flags of A after an instruction that does not write A, and the `CMP #0` premise of the exception does not hold")
+                    continue
+                if (fname, b) in FLAGS_A_EXCEPTIONS:
+                    res.note("exception %s: %s" % (k2, FLAGS_A_EXCEPTIONS[(fname, b)]))
+                    continue
+                res.fail(k2, ent["where"], "%s assigns `flags = FlagsState::A` on a path where %s: the next condition skips its compare and branches on flags that do not describe A" % (
+                    fname, {"nothing-emitted": "it has emitted no N/Z-changing instruction itself", "other": "the last N/Z-changing instruction it emitted did not write A",
+                            "unknown": "the instruction emitted last cannot be resolved"}[b]))
